@@ -768,3 +768,71 @@ def _ev(t, env, a_key, b_key, ordering):
             return n2
         return eval_sign(sub(t), a_key, b_key, ordering)
     return eval_sign(t, a_key, b_key, ordering)
+
+
+def returned_after(ctx, fn, arm_event=None, arm_edge=None, P=None):
+    """Constant propagation of plain locals along every feasible path: the set
+    of values returned on paths that crossed an arming event / edge (arm_event
+    (e) / arm_edge(literal) -> bool; both None = armed from entry).  A value
+    is an int constant, or "?" when the returned expression is not a constant
+    on that path.  Independent of whether the function returns the constant
+    directly or through `rc = K; goto fail; ... return rc;`."""
+    armed0 = arm_event is None and arm_edge is None
+
+    def step(q, e, st, b, i):
+        armed, env, out = q
+        k = e["e"]
+        if k == "asg" or k == "decl":
+            lhs = strip_casts(e["lhs"]) if k == "asg" else {"k": "var", "n": e["n"]}
+            if isinstance(lhs, dict) and lhs.get("k") == "var":
+                d = dict(env)
+                rhs = e.get("rhs") if k == "asg" else e.get("init")
+                v = const_val(rhs) if rhs is not None and (k == "decl" or e.get("op") == "=") else None
+                if v is None and rhs is not None and (k == "decl" or e.get("op") == "="):
+                    r = strip_casts(rhs)
+                    if isinstance(r, dict) and r.get("k") == "var" and r["n"] in d:
+                        v = d[r["n"]]
+                if v is None:
+                    d.pop(lhs["n"], None)
+                else:
+                    d[lhs["n"]] = v
+                env = frozenset(d.items())
+        elif k == "inc":
+            x = strip_casts(e["x"])
+            if isinstance(x, dict) and x.get("k") == "var":
+                d = dict(env)
+                d.pop(x["n"], None)
+                env = frozenset(d.items())
+        elif k == "call":
+            d = None
+            for a in e.get("a", []):
+                a = strip_casts(a)
+                if isinstance(a, dict) and a.get("k") == "un" and a.get("op") == "&":
+                    x = strip_casts(a["x"])
+                    if isinstance(x, dict) and x.get("k") == "var":
+                        d = d if d is not None else dict(env)
+                        d.pop(x["n"], None)
+            if d is not None:
+                env = frozenset(d.items())
+        if not armed and arm_event is not None and arm_event(e):
+            armed = True
+        if k == "ret" and armed:
+            x = e.get("x")
+            v = const_val(x) if x is not None else None
+            if v is None and x is not None:
+                r = strip_casts(x)
+                if isinstance(r, dict) and r.get("k") == "var":
+                    v = dict(env).get(r["n"])
+            out = out | frozenset([v if v is not None else "?"])
+        return (armed, env, out)
+
+    def edge(q, lit):
+        armed, env, out = q
+        if not armed and arm_edge is not None and lit is not None and arm_edge(lit):
+            return (True, env, out)
+        return q
+    g, parent, finals = run_paths(ctx, fn, (armed0, frozenset(), frozenset()), step, edge, P)
+    vals = set()
+    for q, cur, bid in finals:
+        vals |= set(q[2])
+    return vals
